@@ -1,6 +1,7 @@
 package sx
 
 import (
+	"math/big"
 	"fmt"
 	"go/token"
 	"os"
@@ -149,6 +150,41 @@ func (h *harnessRun) worker() {
 	if err != nil {
 		h.noteInconclusive("cannot start solver: " + err.Error())
 		return
+	}
+	if cfg.OneShotAll {
+		run1 := func(kind, script string) solver.Result {
+			var cmd *exec.Cmd
+			if kind == "cvc5" {
+				cmd = exec.Command("cvc5", "--lang=smt2", fmt.Sprintf("--tlimit=%d", cfg.TimeoutMs))
+				script = "(set-logic ALL)\n" + script
+			} else {
+				cmd = exec.Command(kind, "-in", fmt.Sprintf("-T:%d", cfg.TimeoutMs/1000+1))
+			}
+			cmd.Stdin = strings.NewReader(script)
+			start := time.Now()
+			out, _ := cmd.CombinedOutput()
+			sess.s.Time += time.Since(start)
+			txt := string(out)
+			if strings.Contains(txt, "(error") {
+				return solver.Unknown
+			}
+			for _, l := range strings.Split(txt, "\n") {
+				switch strings.TrimSpace(l) {
+				case "unsat":
+					return solver.Unsat
+				case "sat":
+					return solver.Sat
+				}
+			}
+			return solver.Unknown
+		}
+		sess.fresh = func(script string) solver.Result {
+			r := run1(cfg.Solver, script)
+			if r == solver.Unknown && cfg.SolverAlt != "" {
+				r = run1(cfg.SolverAlt, script)
+			}
+			return r
+		}
 	}
 	defer func() {
 		h.mu.Lock()
@@ -326,4 +362,75 @@ func (e *Engine) crossCheck(ss *session, extra *term.T, cfg *Config) solver.Resu
 		}
 	}
 	return solver.Unknown
+}
+
+// oneShot decides "path condition ∧ extra" in a fresh solver process (the
+// full tactic pipeline; much faster than the incremental core on
+// floating-point goals) and, when satisfiable, returns the model.
+func (e *Engine) oneShot(ss *session, extra *term.T, cfg *Config) (solver.Result, map[string]*big.Int) {
+	r, m := e.oneShotWith(cfg.Solver, ss, extra, cfg)
+	if r == solver.Unknown && cfg.SolverAlt != "" {
+		// the two solvers have complementary strengths on nonlinear integer
+		// goals (cvc5 refutes, z3 finds models): ask the other one
+		r, m = e.oneShotWith(cfg.SolverAlt, ss, extra, cfg)
+	}
+	return r, m
+}
+
+func (e *Engine) oneShotWith(kind string, ss *session, extra *term.T, cfg *Config) (solver.Result, map[string]*big.Int) {
+	ref := ss.define(extra)
+	var sb strings.Builder
+	sb.WriteString(ss.script.String())
+	sb.WriteString("(assert " + ref + ")\n(check-sat)\n")
+	names := make([]string, len(ss.vars))
+	for k, v := range ss.vars {
+		names[k] = ss.pr.Ref(v)
+	}
+	if len(names) > 0 {
+		sb.WriteString("(get-value (" + strings.Join(names, " ") + "))\n")
+	}
+	var cmd *exec.Cmd
+	if kind == "cvc5" {
+		cmd = exec.Command("cvc5", "--lang=smt2", "--produce-models", fmt.Sprintf("--tlimit=%d", cfg.TimeoutMs))
+		full := "(set-logic ALL)\n" + sb.String()
+		sb.Reset()
+		sb.WriteString(full)
+	} else {
+		cmd = exec.Command(kind, "-in", fmt.Sprintf("-T:%d", cfg.TimeoutMs/1000+1))
+	}
+	if d := os.Getenv("VERIF_DUMP"); d != "" {
+		os.MkdirAll(d, 0o755)
+		ss.nCheck++
+		os.WriteFile(fmt.Sprintf("%s/o%d_%d.smt2", d, os.Getpid(), ss.nCheck), []byte(sb.String()), 0o644)
+	}
+	cmd.Stdin = strings.NewReader(sb.String())
+	start := time.Now()
+	out, _ := cmd.CombinedOutput()
+	ss.s.Queries++
+	ss.s.Time += time.Since(start)
+	txt := string(out)
+	nl := strings.IndexByte(txt, '\n')
+	first, rest := txt, ""
+	if nl >= 0 {
+		first, rest = strings.TrimSpace(txt[:nl]), txt[nl+1:]
+	}
+	switch first {
+	case "unsat":
+		// the verdict is the first line; what follows is only the solver
+		// declining (get-value) after unsat
+		return solver.Unsat, nil
+	case "sat":
+		m := map[string]*big.Int{}
+		vals := map[string]*big.Int{}
+		if err := solver.ParseValues(strings.TrimSpace(rest), vals); err != nil {
+			return solver.Sat, nil
+		}
+		for k, v := range ss.vars {
+			if x, ok := vals[names[k]]; ok {
+				m[v.Name] = x
+			}
+		}
+		return solver.Sat, m
+	}
+	return solver.Unknown, nil
 }
